@@ -412,4 +412,3 @@ func killChild(t *vk.T) {
 	fmt.Println("not killed: only", m.Calls(), "calls")
 	os.Exit(4)
 }
-
